@@ -3,6 +3,7 @@
 package checks
 
 import (
+	"bytes"
 	"fmt"
 	"math/rand"
 	"os"
@@ -97,6 +98,36 @@ func c05Session(r *rand.Rand, P string, n int) ([]wire.Req, []string) {
 	return reqs, tags
 }
 
+// c05Scripted: sequences in which the file that is open for reading is changed through the write
+// side of the same connection (truncate by CREATE, grow by WRITE, delete), and read again.
+func c05Scripted(r *rand.Rand, P string) ([]wire.Req, []string) {
+	var reqs []wire.Req
+	var tags []string
+	add := func(tag string, q wire.Req) { reqs = append(reqs, q); tags = append(tags, tag) }
+	f := P + "/old.bin"
+	add("OPEN own", wire.P(wire.OpOpen, f))
+	add("READ own", wire.Read(1000, 0))
+	add("CREATE truncates open file", wire.P(wire.OpCreate, f))
+	add("READ after truncate", wire.Read(1000, 0))
+	add("READCRIT 0 after truncate", wire.Crit(0, 0))
+	n := []int{1, 100, 65537}[r.Intn(3)]
+	add(fmt.Sprintf("WRITE %d", n), wire.Write(tree.Content(r.Int63(), int64(n))))
+	add("READ after growth", wire.Read(1<<20, 0))
+	add("READ tail after growth", wire.Read(50, uint64(n/2)))
+	add("STAT own", wire.P(wire.OpStat, f))
+	if r.Intn(2) == 0 {
+		add("WRITE more", wire.Write(tree.Content(r.Int63(), 777)))
+		add("READCRIT all", wire.Crit(uint32(n+777), 0))
+	}
+	add("OPEN own again", wire.P(wire.OpOpen, f))
+	add("READ own again", wire.Read(1<<20, 0))
+	if r.Intn(2) == 0 {
+		add("DELETE open file", wire.P(wire.OpDelete, f))
+		add("STAT deleted", wire.P(wire.OpStat, f))
+	}
+	return reqs, tags
+}
+
 func C05(e *Env) {
 	run := e.Run
 	run.Rule = "cases: random sessions (5..40 requests) mixing CREATE/WRITE/DELETE/MKDIR/RMDIR (targets: new, existing, directory, no-parent, virtual-image paths; payloads 0..200000 bytes in 1-5 chunks) with non-mutating requests, in both write modes, lock-step under the reference model; around every request the private subtree is snapshotted (only the request's own target may change), the shared tree is snapshotted around the whole campaign, uploads are read back from disk after the connection ends; non-trivial = distinct (mode, request tag, outcome)"
@@ -151,7 +182,7 @@ func C05(e *Env) {
 		}
 	}
 	sharedBefore := model.Snapshot(root)
-	nSess := e.Pick(300, 6000)
+	nSess := e.Pick(3000, 40000)
 	type sess struct {
 		tgt  int
 		reqs []wire.Req
@@ -162,12 +193,58 @@ func C05(e *Env) {
 	for i := 0; i < nSess; i++ {
 		P := fmt.Sprintf("/w%07d", privSeq.Add(1))
 		reqs, tags := c05Session(rng, P, 5+rng.Intn(36))
+		if i%10 == 3 {
+			reqs, tags = c05Scripted(rng, P)
+		}
 		ti := i % len(targets)
 		list = append(list, sess{ti, reqs, tags, P})
+	}
+	// a worker with a short read timeout: uploads stalled in the middle of a payload are cut by it
+	pto := e.Worker(worker.Config{Root: root, AllowWrite: true, BufSize: 65536, ReadTimeoutMs: 200}, "c05-timeout", false, 0)
+	defer pto.Stop()
+	targets = append(targets, target{pto, mkWorld(pto.HostPort(), true), "lib allow_write=true read-timeout=200ms"})
+	for i := range list {
+		if i%9 == 4 {
+			list[i].tgt = len(targets) - 1
+		}
+	}
+	abortUpload := func(t target, k int) {
+		P := fmt.Sprintf("/w%07d", privSeq.Add(1))
+		privateTree(root, P[1:])
+		defer os.RemoveAll(filepath.Join(root, P[1:]))
+		c, err := wire.Dial(t.p.HostPort(), nil, e.Watchdog)
+		if err != nil {
+			return
+		}
+		defer c.Close()
+		c.Send(wire.P(wire.OpCreate, P+"/cut.bin"))
+		if b, st := c.ReadN(4); st != wire.Full || wire.I32(b) != 0 {
+			return
+		}
+		declared := uint32(5000 + 1000*(k%7))
+		part := bytes.Repeat([]byte{'S'}, 3000)
+		c.Send(wire.Req{Op: wire.OpWrite, Payload: part, DeclLen: &declared})
+		switch k % 3 {
+		case 0:
+			c.Reset()
+		case 1:
+			if strings.Contains(t.name, "read-timeout") {
+				c.ExpectEOF() // stall until the server's read timeout cuts the upload
+			} else {
+				c.Reset()
+			}
+		default:
+			c.CloseWrite()
+			c.ExpectEOF()
+		}
+		run.Count("aborted_uploads", 1)
 	}
 	ParallelDo(len(list), 8, func(i int) {
 		s := list[i]
 		t := targets[s.tgt]
+		if t.w.AllowWrite && i%6 == 1 {
+			abortUpload(t, i/6)
+		}
 		privateTree(root, s.P[1:])
 		w := *t.w
 		w.SnapDir = filepath.Join(root, s.P[1:])
